@@ -21,7 +21,9 @@ ALPHA = "{LF, CR, 'a', TAB, U+1F600, U+0301}"
 def _pc(name, n, says, **kw):
     d = dict(crate=LS, attach='harper-ls/src/pos_conv.rs', file='pos_conv.rs', modpath='pos_conv::__verif_kani_pos_conv',
              harness=f'{name}_{n}', kind='bounded', bound=f'all texts of length 0..={n} over {ALPHA}, every index/span',
-             function='pos_conv::' + kw.pop('function'), says=says, timeout=kw.pop('timeout', 1500))
+             function='pos_conv::' + kw.pop('function'), says=says, timeout=kw.pop('timeout', 1500),
+             # texts of length l over 6 symbols, times (l+1) indices
+             input_states=sum(6 ** l * (l + 1) for l in range(n + 1)))
     d.update(kw)
     return d
 
@@ -30,6 +32,7 @@ for _n in (3, 4, 5):
     HARNESSES[f'pos_conv.index_to_position_ref_{_n}'] = _pc('index_to_position_ref', _n, 'index_to_position == (number of LF before i, UTF-16 units since the last LF)', function='index_to_position')
     HARNESSES[f'pos_conv.roundtrip_inner_{_n}'] = _pc('roundtrip_inner', _n, 'position_to_index(index_to_position(i)) == i for every i on an LF-terminated line', function='position_to_index')
 for _n in (3, 4):
+    HARNESSES[f'pos_conv.span_to_range_ref_{_n}'] = _pc('span_to_range_ref', _n, 'span_to_range(s) == (reference position of s.start, reference position of s.end)', function='span_to_range')
     HARNESSES[f'pos_conv.roundtrip_single_line_{_n}'] = _pc('roundtrip_single_line', _n, 'round trip for texts without LF', function='position_to_index')
     HARNESSES[f'pos_conv.span_roundtrip_inner_{_n}'] = _pc('span_roundtrip_inner', _n, 'range_to_span(span_to_range(s)) == s and ranges are ordered, for spans ending on an LF-terminated line', function='range_to_span')
 HARNESSES['pos_conv.roundtrip_final_line_3'] = _pc('roundtrip_final_line', 3, 'round trip for i on the final line of a text containing LF (KNOWN FINDING D4)', function='position_to_index', covers=False)
